@@ -766,8 +766,14 @@ class Probability(Expression):
         return Probability(distribution)
 
     def _get_key(self):  # type:ignore
-        # TODO incorporate more information from children and parents
-        return 0, self.children[0].name
+        # the first child's name comes first, the rest makes the order of factors total,
+        # so it does not depend on the order in which they were given
+        return (
+            0,
+            self.children[0].name,
+            tuple(_variable_total_key(v) for v in self.children),
+            tuple(_variable_total_key(v) for v in self.parents),
+        )
 
     def to_text(self) -> str:
         """Output this probability in the internal string format."""
@@ -1583,6 +1589,15 @@ def _sort_interventions(interventions: Iterable[Intervention]) -> tuple[Interven
     return tuple(sorted(interventions, key=lambda i: (i.name, i.star)))
 
 
+def _variable_total_key(variable: Variable) -> tuple[str, str, tuple[tuple[str, bool], ...]]:
+    """Get a key that distinguishes any two different variables (name, value mark, and interventions)."""
+    star = "" if variable.star is None else ("+" if variable.star else "-")
+    interventions: tuple[tuple[str, bool], ...] = ()
+    if isinstance(variable, CounterfactualVariable):
+        interventions = tuple(sorted((i.name, bool(i.star)) for i in variable.interventions))
+    return variable.name, star, interventions
+
+
 def _variable_sort_key(variable: Variable) -> tuple[str, str]:
     if isinstance(variable, CounterfactualVariable):
         return variable.name, ",".join(
@@ -1697,7 +1712,13 @@ class PopulationProbability(Probability):
         return PopulationProbability(population=self.population, distribution=distribution)
 
     def _get_key(self):  # type:ignore
-        return -1, self.population, self.children[0].name
+        return (
+            -1,
+            self.population,
+            self.children[0].name,
+            tuple(_variable_total_key(v) for v in self.children),
+            tuple(_variable_total_key(v) for v in self.parents),
+        )
 
     def to_y0(self) -> str:
         """Output this probability instance as y0 internal DSL code."""
